@@ -282,5 +282,5 @@ def check_size(chk, prog, eff, cache):
             if both_var and not is_induction:
                 chk.ob("C07.size-sum", "raw %s of two sizes at %s" % (i.op, i.loc()), False, i.loc(), fn=f.name, key="raw:%d" % i.line,
                        detail="sizes must be combined with _cbor_safe_signaling_add so that overflow yields 0")
-    chk.floor("C07.size-leaf", "leaf cases", nleaf, 8)
+    chk.floor("C07.size-leaf", "leaf cases", nleaf, 6)
     chk.floor("C07.size-sum", "composite paths", sums, 12)
